@@ -99,7 +99,7 @@ def run(chk):
         "obligations": pr["obligations"], "discharged": pr["discharged"], "axioms": pr["axioms"],
         "checker_cmd": "cd lean && lake build %s" % MODULE, "trusted_base": TRUSTED_BASE, "forbidden_constructs": pr["forbidden_constructs"],
         "evaluations": applied, "distinct_nontrivial": len(nontrivial),
-        "rule": "otherwise valid foreign files (PQ.specWrite, 5 structs, 3 codecs) in which ONE page of one column chunk uses one unsupported feature: dictionary page, index page, v2 data page, value encodings 2-9, BIT_PACKED/PLAIN level encodings on columns that have levels, codecs 3-7; every (feature, column [sampled in quick], row group 0/1, first/second page); non-trivial = distinct mutant refused with an error before any row of its row group is delivered",
+        "rule": "otherwise valid foreign files (PQ.specWrite, 8 structs, 3 codecs) in which ONE page of one column chunk uses one unsupported feature: dictionary page, index page, v2 data page, value encodings 2-9, BIT_PACKED/PLAIN level encodings on columns that have levels, codecs 3-7; every (feature, column [sampled in quick], row group 0/1, first/second page); non-trivial = distinct mutant refused with an error before any row of its row group is delivered",
         "samples": [ops[0][:300], ops[len(ops) // 2][:300]],
         "input_distribution": dist,
         "tie": "reader model outcome (err-at-open | err-at-next k | rows | panic) = generated reader's on every mutant",
